@@ -890,7 +890,7 @@ class Node:
         if not isinstance(origin_host, bytes):
             origin_host = None
 
-        if msg.header.is_request and origin_host is not None:
+        if msg.header.is_request:
             # Record who originally sent a request, as this information is lost
             # by the time an answer will go out
             # identifiers are unique within a connection only
@@ -1098,11 +1098,13 @@ class Node:
         origin_host, recv_time = self._origin_waiting_answer[message_id]
         process_time = time.time() - recv_time
 
-        if origin_host not in self._sent_answers:
-            self._sent_answers[origin_host] = deque(
-                maxlen=self.retransmit_queue_size)
-        
-        self._sent_answers[origin_host].append(message.header.end_to_end_identifier)
+        if origin_host is not None:
+            if origin_host not in self._sent_answers:
+                self._sent_answers[origin_host] = deque(
+                    maxlen=self.retransmit_queue_size)
+
+            self._sent_answers[origin_host].append(
+                message.header.end_to_end_identifier)
 
         self._origin_waiting_answer.pop(message_id, None)
 
